@@ -197,9 +197,27 @@ def shrink_candidates(inp):
 MANIFEST = {
     "level_claimed": {
         "category": "proof",
-        "text": "see coq/C14/README.md",
+        "text": ("Coq theorems over a model of BeginBlocker / shouldEpochStart / AddEpochInfo / MultiEpochHooks: "
+                 "C14_every_block_of_every_history — for EVERY sequence of blocks and epoch additions with non-decreasing times "
+                 "and well-formed definitions, every block moves each identifier by 0 or 1, by 1 iff (not counting and start "
+                 "reached) or (counting and time >= current start + duration), records the block's time/height, and calls for "
+                 "that identifier exactly AfterEpochEnd(n) (not on the first tick) then BeforeEpochStart(n+1); "
+                 "C14_hooks_exactly_once_in_order / _count — over whole histories with NO assumption on times or counters the "
+                 "calls for an identifier are exactly the consecutive pairs between its first and last epoch number, each once; "
+                 "C14_monotone, C14_at_most_one_per_block, C14_start_is_block, plus lemmas for equal / decreasing times, long "
+                 "stalls and non-positive durations, and two _refuted theorems showing that well-formedness of imported "
+                 "counters is necessary. The model is run against the real BeginBlocker (direct and through the whole "
+                 "application BeginBlock) with recording hooks on generated time sequences, and the proved-sound checker of the "
+                 "per-block property is evaluated on the implementation traces; hook registration in app/ is re-extracted on "
+                 "every run (Gen/C14Facts.v) and each registered hook is proved to see every call once, in order."),
         "design_ref": "DESIGN.md §5 C14",
     },
-    "level_note": "",
-    "technique": "Coq proof (induction over op histories) + differential correspondence on BeginBlocker traces with recording hooks",
+    "level_note": ("Hypotheses: imported epoch infos are well formed (not counting => epoch 0; counting => StartTime <= "
+                   "CurrentEpochStartTime <= now) — preserved by every block, true of every fresh definition, shown necessary by "
+                   "the _refuted theorems; block times do not decrease for the per-block iff (not needed for exactly-once / "
+                   "monotone). Not modelled: uint64/int64 wrap, time.Time range, DeleteEpochInfo, hook bodies. Trusted: Coq "
+                   "kernel + vm_compute, the driver's two recording hooks, trace->Coq rendering (identifier ranks), the go/ast "
+                   "extractor harness/gen/c14."),
+    "technique": "Coq proof (induction over op histories, per-identifier projection of the hook trace) + differential "
+                 "correspondence on BeginBlocker traces with recording hooks + generated hook-registration facts",
 }
